@@ -87,6 +87,19 @@ CHECKS.update({
         note='v3 layout has no independent reference (follows the parser declarative structs); <= 1 string index block',
         design='5/C03'),
 })
+CHECKS.update({
+    'C06': dict(
+        technique='TLC model checking of Truncation.tla (byte-grain reader with explicit seek loop: every layout of a '
+                  'family x every cut; safety + LIVENESS under weak fairness; negative control lasso); every cut '
+                  'offset of real v2/v3 dumps run through 4 public APIs under a counting reader, each run validated '
+                  'against the segment program of Truncation_Val in TLC',
+        text='Termination is a liveness property: TLC checks <>stopped for every cut of every layout on the design and '
+             'shows the lasso of the unrepaired seek loop; on the code every truncation offset is enumerated (fault '
+             'enumeration bound to the spec by validation of each run).',
+        note='scaled sizes in the exhaustive model; real sizes in validation; read budget 4*len+4096 calls; prefix '
+             'claim on events/traces/lines',
+        design='5/C06'),
+})
 PENDING = {}
 
 ALL = ['C%02d' % i for i in range(1, 21)]
